@@ -3020,7 +3020,10 @@ func (rl *clientConnReadLoop) processWindowUpdate(f *WindowUpdateFrame) error {
 	if !fl.add(int32(f.Increment)) {
 		// For stream, the sender sends RST_STREAM with an error code of FLOW_CONTROL_ERROR
 		if cs != nil {
-			rl.endStreamError(cs, StreamError{
+			// cc.mu is held here: endStreamError would lock it again
+			// (via abortStream) and deadlock the read loop.
+			cs.readAborted = true
+			cs.abortStreamLocked(StreamError{
 				StreamID: f.StreamID,
 				Code:     ErrCodeFlowControl,
 			})
